@@ -122,8 +122,16 @@ pub fn build_world(rng: &mut Rng) -> (World, Pubkey, Vec<BankSpec>, Pubkey) {
                     _ => rng.below(p.max(1)),
                 }
             };
-            let conf = conf_of(rng, price);
-            let ema_conf = if rng.chance(1, 2) { conf } else { conf_of(rng, ema) };
+            let mut conf = conf_of(rng, price);
+            let mut ema_conf = if rng.chance(1, 2) { conf } else { conf_of(rng, ema) };
+            // strict banks (maximum confidence below the hard 5 % clamp): aim the 95 % band between the bank's maximum and 5 %
+            let mc = cfg.oracle_max_confidence as u64;
+            if mc > 0 && mc < u32::MAX as u64 / 20 && rng.chance(1, 2) {
+                let lo = mc as f64 / u32::MAX as f64;
+                let target = lo + (0.05 - lo) * (0.05 + 0.9 * (rng.below(1000) as f64) / 1000.0);
+                conf = ((price.unsigned_abs() as f64) * target / 2.12) as u64;
+                ema_conf = ((ema.unsigned_abs() as f64) * target / 2.12) as u64;
+            }
             let age_cfg = if cfg.oracle_max_age == 0 { 60 } else { cfg.oracle_max_age as i64 };
             let publish = match rng.below(8) {
                 0 => now - age_cfg,
